@@ -85,6 +85,14 @@ func exhConfigs() []exhCfg {
 		{gate: gr([]int{1}, []int{2}, S{"ee"}), bound: 2, est: 2135},
 		{gate: gr([]int{1}, []int{2}, S{"ee"}), bound: 3, est: 11595},
 		{gate: gr([]int{1}, []int{1}, S{"e", "e"}), bound: 3, est: 239694, thorough: true},
+		{gate: gp(false, []int{1}, S{"r", "e"}), bound: 3, est: 1647910, thorough: true},
+		{gate: gp(false, []int{1}, S{"r", "r"}), bound: 3, est: 766874, thorough: true},
+		// gate, larger complete trees (thorough tier)
+		{gate: gp(true, []int{1, 1}, S{"r"}, S{"r"}), bound: U, est: 647630, thorough: true},
+		{gate: gr([]int{1}, []int{2}, S{"ee"}), bound: U, est: 474362, thorough: true},
+		// gr([]int{1}, []int{1}, S{"e", "e"}) has 25,723,128 schedules and rw("R", "Y", "L") 25,514,915
+		// (measured once, all passed); they are enumerated up to 3 preemptions to keep the
+		// thorough tier near 10 minutes
 		// xsync.Mutex, complete trees
 		{mu: mx("L", "L"), bound: U, est: 40},
 		{mu: mx("L", "T"), bound: U, est: 68},
@@ -103,7 +111,13 @@ func exhConfigs() []exhCfg {
 		{mu: rw("RR", "L"), bound: U, est: 4536},
 		{mu: rw("RL", "R"), bound: U, est: 39768},
 		{mu: rw("RR", "LT"), bound: U, est: 64296},
+		// xsync.RWMutex, larger complete trees (thorough tier)
+		{mu: rw("R", "L", "L"), bound: U, est: 746856, thorough: true},
+		{mu: rdv(2), bound: U, est: 591844, thorough: true},
+		{mu: rw("R", "T", "L"), bound: U, est: 2361313, thorough: true},
+		{mu: rw("R", "R", "L"), bound: U, est: 24313902, thorough: true},
 		// xsync.RWMutex, bounded preemptions
+		{mu: rdv(3), bound: 2, est: 843048, thorough: true},
 		{mu: rw("R", "R", "L"), bound: 2, est: 4422},
 		{mu: rw("R", "L", "L"), bound: 2, est: 3780},
 		{mu: rdv(2), bound: 2, est: 4324},
